@@ -10,10 +10,10 @@ LEAN_MODULES = ['Dhlldv.Props.C20']
 PROP_MODULES = ['Dhlldv.Props.C20']
 PROVED = ['Vsm <= Vsm_max (all inputs); Cvr_max in [0.05, 0.66]; Vsm_max >= 0 and Vsm >= 0 for physical inputs',
           'Vsm at the reported Cvr_max lies in [0.998 Vsm_max, Vsm_max] (both nomograph branches: 6.75*0.333*0.667^2 and 6.75*0.666^2*0.334)',
-          '0.25 <= M <= 1.7; V50-model Erhg non-increasing in line speed (V50 >= 0, musf >= 0)',
+          '0.25 <= M <= 1.7; V50 >= 0 whatever the friction-factor iteration does, hence V50-model Erhg non-increasing in line speed for physical inputs',
+          'Wilson-stratified Erhg non-increasing in line speed on E (L(v)^0.26 / v decreasing; friction lemma shared with C04)',
           'both gradients exceed the water gradient whenever the excess gradient is positive (Rsd > 0, Cv > 0)']
-HYPOTHESES = ['Wilson-stratified Erhg non-increasing in line speed: needs (1/f(v))^0.13 / v decreasing (monitored; analytic lemma shared with C04)',
-              'positivity of the two excess gradients on E (from Vsm > 0 resp. V50 > 0; monitored)']
+HYPOTHESES = ['positivity of the two excess gradients on E (from Vsm > 0 resp. V50 > 0; monitored)']
 MONITORED = ['V50 iteration terminates; result satisfies its implicit friction-factor equation within 0.5 %']
 RULE = ('E with d <= 0.1 Dp, musf in {0.31,0.4,0.415}, vls in [0.5,10], d85/d50 in (1.02,6]; both branches of the nomograph fit forced '
         '(Cvr_max <= 0.33 and > 0.33); non-trivial = distinct (branch, friction-limited or not, musf) classes')
